@@ -520,6 +520,9 @@ func (e *Engine) ret(st *State, th *Thread, res Value) {
 	th.Frames = th.Frames[:len(th.Frames)-1]
 	if len(th.Frames) == 0 {
 		th.Status = TDone
+		if e.Cfg.Race && th.VC != nil {
+			st.DoneVC = vcJoin(st.DoneVC, th.VC)
+		}
 		return
 	}
 	if isDefer {
